@@ -121,7 +121,8 @@ def run_gen(case, bus, ex):
         if n == "RandomSineWaves1d" and 2 * kw.get("cutoff", 5) < N:
             uh = np.abs(np.fft.fft(u[0]))
             outside = np.abs(G.kint_full(1, N)[0]) > kw.get("cutoff", 5)
-            bus.judge("cutoff", float(np.max(uh[outside])) / float(np.max(uh)), tolm * 4, sig, witness=dict(winfo, cutoff=kw.get("cutoff", 5)))
+            if outside.any():
+                bus.judge("cutoff", float(np.max(uh[outside])) / float(np.max(uh)), tolm * 4, sig, witness=dict(winfo, cutoff=kw.get("cutoff", 5)))
         # ---- spectral shaping against the white noise of the same key
         if n in ("GaussianRandomField", "DiffusedNoise") and not kw.get("std_one") and not kw.get("max_one"):
             white = np.asarray(ex.ic.WhiteNoise(D)(N, key=key))
